@@ -292,6 +292,11 @@ func ruleEveryExportedMethodChecksDisposed(w *World, r *Report, rule string) {
 			if why == "" && named != nil {
 				for _, f := range w.Within(body, 2) {
 					for _, a := range collectAccessesIn(w, f, func(v *types.Var) bool { return ownerOfFieldRaw(w, v) == owner && !isSyncType(v.Type()) }) {
+						// the container's own tables and bookkeeping (the fields the rules know by role);
+						// a list a new feature added for itself (listeners, hooks) is that feature's business
+						if _, known := fieldRoles[w.canonField(a.Field)]; !known {
+							continue
+						}
 						if a.IsWrite() && a.Kind != "addr" {
 							why = "a write to " + owner + "." + a.Field.Name()
 						}
@@ -2147,4 +2152,248 @@ func freshLocalObjectAt(info *types.Info, at ast.Node, e ast.Expr) bool {
 		return true
 	})
 	return fresh
+}
+
+// ruleNoStaleIndex: a slice field of the collection, a scope or a provider is
+// never indexed or resliced with a function parameter that is not compared with
+// the slice's length in the same function: a position taken in an earlier
+// critical section (mark := c.Count() … c.list[mark:]) is stale as soon as
+// something was removed in between - "slice bounds out of range", outside any recover.
+func ruleNoStaleIndex(w *World, r *Report, rule string) {
+	isShared := func(v *types.Var) bool {
+		if _, ok := v.Type().Underlying().(*types.Slice); !ok {
+			return false
+		}
+		switch ownerOfFieldRaw(w, v) {
+		case "collection", "scope", "provider":
+			return true
+		}
+		return false
+	}
+	sites, bad := 0, 0
+	for _, fi := range w.FuncsOf(w.Godi) {
+		info := fi.Pkg.TypesInfo
+		// parameters compared with len(x.F)
+		checked := map[types.Object]bool{}
+		ast.Inspect(fi.Decl.Body, func(x ast.Node) bool {
+			be, ok := x.(*ast.BinaryExpr)
+			if !ok {
+				return true
+			}
+			switch be.Op {
+			case token.LSS, token.LEQ, token.GTR, token.GEQ:
+			default:
+				return true
+			}
+			for _, pair := range [][2]ast.Expr{{be.X, be.Y}, {be.Y, be.X}} {
+				if c, isC := unparen(pair[1]).(*ast.CallExpr); isC && exprStr(c.Fun) == "len" && len(c.Args) == 1 {
+					if fv := fieldOf(info, c.Args[0]); fv != nil && isShared(fv) {
+						if o := objOf(info, pair[0]); o != nil {
+							checked[o] = true
+						}
+					}
+				}
+			}
+			return true
+		})
+		k := 0
+		judge := func(base ast.Expr, idx ast.Expr, pos token.Pos) {
+			fv := fieldOf(info, base)
+			if fv == nil || !isShared(fv) || idx == nil {
+				return
+			}
+			sites++
+			o := objOf(info, idx)
+			if o == nil || !isParamOf(fi, info, o) || checked[o] {
+				return
+			}
+			bad++
+			k++
+			r.Fail(rule, fmt.Sprintf("%s#stale-index:%s.%s/%d", fi.Name(), ownerOfFieldRaw(w, fv), fv.Name(), k), pos,
+				"%s uses its parameter %s as a position in %s.%s without comparing it with the length of the slice: a position computed before (in another critical section) is out of range once entries were removed in between - the operation panics", fi.Name(), o.Name(), ownerOfFieldRaw(w, fv), fv.Name())
+		}
+		ast.Inspect(fi.Decl.Body, func(x ast.Node) bool {
+			switch e := x.(type) {
+			case *ast.IndexExpr:
+				judge(e.X, e.Index, e.Pos())
+			case *ast.SliceExpr:
+				judge(e.X, e.Low, e.Pos())
+				judge(e.X, e.High, e.Pos())
+			}
+			return true
+		})
+	}
+	if bad == 0 {
+		r.OK(rule, "godi#stale-index:none", token.NoPos, false, "%d index / slice expressions on slice fields of collection, scope and provider: none uses an unchecked parameter as a position", sites)
+	}
+}
+
+// ruleNoResolvedValueKept: what resolution hands out is remembered in the
+// instance tables only. No function of the root package stores a value that came
+// out of Get / GetKeyed / GetGroup / resolve / createInstance (directly, wrapped in
+// a reflect.Value, or appended to a list) into a field of a record the container
+// shares - a struct reachable from provider, scope, collection or Descriptor. A
+// bound-arguments cache on a decorator, a memo on a descriptor: the transient it
+// holds is injected into every later consumer.
+func ruleNoResolvedValueKept(w *World, r *Report, rule string) {
+	ro := resolveRoles(w)
+	// shared record types: reachable through field types from the four roots
+	shared := map[*types.TypeName]bool{}
+	var visit func(t types.Type, depth int)
+	visit = func(t types.Type, depth int) {
+		if depth < 0 || t == nil {
+			return
+		}
+		switch x := t.(type) {
+		case *types.Pointer:
+			visit(x.Elem(), depth)
+		case *types.Slice:
+			visit(x.Elem(), depth)
+		case *types.Array:
+			visit(x.Elem(), depth)
+		case *types.Map:
+			visit(x.Key(), depth)
+			visit(x.Elem(), depth)
+		case *types.Named:
+			if x.Obj().Pkg() != w.Godi.Types || shared[x.Obj()] {
+				return
+			}
+			st, ok := x.Underlying().(*types.Struct)
+			if !ok {
+				return
+			}
+			shared[x.Obj()] = true
+			for i := 0; i < st.NumFields(); i++ {
+				visit(st.Field(i).Type(), depth-1)
+			}
+		}
+	}
+	for _, root := range []string{"provider", "scope", "collection", "Descriptor"} {
+		if named, _ := w.Struct(w.Godi, root); named != nil {
+			visit(named, 3)
+		}
+	}
+	isRes := func(cal *types.Func) bool {
+		if cal == nil {
+			return false
+		}
+		if t := w.Decls[cal]; t != nil && (t == ro.resolve || t == ro.resolveTop || t == ro.createInstance || ro.creators[cal]) {
+			return true
+		}
+		switch cal.Name() {
+		case "Get", "GetKeyed", "GetGroup":
+			if rn := recvNamed(cal); rn != nil && rn.Obj().Pkg() != nil && strings.HasPrefix(rn.Obj().Pkg().Path(), modPath) {
+				switch rn.Obj().Name() {
+				case "scope", "provider", "Scope", "Provider", "DependencyResolver":
+					return true
+				}
+			}
+		}
+		return false
+	}
+	doors := map[*FuncInfo]string{}
+	for _, f := range []*FuncInfo{ro.setInstance, ro.setSingleton} {
+		if f != nil {
+			doors[f] = f.Name()
+		}
+	}
+	doors = w.HelperClosure(doors)
+	fns, bad := 0, 0
+	for _, fi := range w.FuncsOf(w.Godi) {
+		if _, isDoor := doors[fi]; isDoor {
+			continue
+		}
+		info := fi.Pkg.TypesInfo
+		tainted := map[types.Object]bool{}
+		for changed, round := true, 0; changed && round < 4; round++ {
+			changed = false
+			ast.Inspect(fi.Decl.Body, func(x ast.Node) bool {
+				as, ok := x.(*ast.AssignStmt)
+				if !ok {
+					return true
+				}
+				mark := func(l ast.Expr) {
+					if o := objOf(info, l); o != nil && !tainted[o] {
+						if v, isV := o.(*types.Var); isV && !v.IsField() {
+							tainted[o] = true
+							changed = true
+						}
+					}
+				}
+				if len(as.Rhs) == 1 {
+					if c, isC := unparen(as.Rhs[0]).(*ast.CallExpr); isC && isRes(callee(info, c)) && len(as.Lhs) >= 1 {
+						mark(as.Lhs[0])
+						return true
+					}
+				}
+				if len(as.Lhs) == len(as.Rhs) {
+					for i, rh := range as.Rhs {
+						uses := false
+						ast.Inspect(rh, func(y ast.Node) bool {
+							if id, isId := y.(*ast.Ident); isId && tainted[info.Uses[id]] {
+								uses = true
+							}
+							return true
+						})
+						if uses {
+							mark(as.Lhs[i])
+						}
+					}
+				}
+				return true
+			})
+		}
+		if len(tainted) == 0 {
+			continue
+		}
+		fns++
+		k := 0
+		ast.Inspect(fi.Decl.Body, func(x ast.Node) bool {
+			as, ok := x.(*ast.AssignStmt)
+			if !ok || len(as.Lhs) != len(as.Rhs) {
+				return true
+			}
+			for i, l := range as.Lhs {
+				t := unparen(l)
+				if ix, isIx := t.(*ast.IndexExpr); isIx {
+					t = unparen(ix.X)
+				}
+				fv := plainFieldOf(info, t)
+				if fv == nil {
+					continue
+				}
+				var owner *types.TypeName
+				for tn := range shared {
+					if st, ok := tn.Type().Underlying().(*types.Struct); ok {
+						for j := 0; j < st.NumFields(); j++ {
+							if st.Field(j) == fv {
+								owner = tn
+							}
+						}
+					}
+				}
+				if owner == nil {
+					continue
+				}
+				uses := ""
+				ast.Inspect(as.Rhs[i], func(y ast.Node) bool {
+					if id, isId := y.(*ast.Ident); isId && tainted[info.Uses[id]] {
+						uses = id.Name
+					}
+					return true
+				})
+				if uses == "" {
+					continue
+				}
+				bad++
+				k++
+				r.Fail(rule, fmt.Sprintf("%s#keeps-resolved:%s.%s/%d", fi.Name(), owner.Name(), fv.Name(), k), as.Pos(),
+					"%s stores %s, which came out of a resolution, in %s.%s - a record the container shares: the value is handed to every later user of that record, whatever its lifetime (a transient dependency resolved once is injected for ever, into every scope)", fi.Name(), uses, owner.Name(), fv.Name())
+			}
+			return true
+		})
+	}
+	if bad == 0 {
+		r.OK(rule, "godi#keeps-resolved:none", token.NoPos, false, "%d functions bind the result of a resolution to a variable: none stores it in a field of a shared record (%d record types reachable from provider, scope, collection, Descriptor)", fns, len(shared))
+	}
 }
